@@ -114,7 +114,18 @@ ObsSub == \A x \in 1..Len(T.subs) :
 
 ---------------------------------------------------------------------------
 Clauses ==
-  IF T.outcome # "ok" THEN
+  IF T.outcome = "nondet" THEN
+     \* a text searched twice gave different hits: there is no world (a registry is a function of the text) for the machine to
+     \* run in, but what C03 / C04 / C05 say about the tree that was returned can be read off the raw observation alone
+     {"ret"}
+     \cup (IF ObsRoot  THEN {} ELSE {"wf.root"})
+     \cup (IF ObsLinks THEN {} ELSE {"wf.link"})
+     \cup (IF ObsSpans THEN {} ELSE {"wf.span"})
+     \cup (IF ObsIter  THEN {} ELSE {"wf.iter"})
+     \cup (IF ObsAbsPos THEN {} ELSE {"abs"})
+     \cup (IF ObsLaminar THEN {} ELSE {"lam"})
+     \cup (IF ObsNoDouble THEN {} ELSE {"dbl"})
+  ELSE IF T.outcome # "ok" THEN
      \* the machine says what should have happened; an exception is never a behaviour,
      \* a hang is one only when the recorded hits leave the engine no way out
      IF T.outcome = "hang" /\ verdict = "hang" THEN {"pre"} ELSE {"ret"}
